@@ -49,6 +49,13 @@ def handleStr (fields : List String) : String :=
       | .ok p => showOptInt (p.align d)
       | .panic _ => "panic"
     | _, _, _, _, _ => "bad-op"
+  | ["contains", a, b, iv, last, d] =>
+    match parseInt a, parseInt b, (iv.toNat?.bind ivOfNat), parseInt last, parseInt d with
+    | some a, some b, some iv, some last, some d =>
+      match newPartition ⟨a, b⟩ iv last with
+      | .ok p => toString (p.contains d)
+      | .panic _ => "panic"
+    | _, _, _, _, _ => "bad-op"
   | ["c11mon", a, b, iv, last, ps] =>
     match parseInt a, parseInt b, (iv.toNat?.bind ivOfNat), parseInt last, parsePeriods ps with
     | some a, some b, some iv, some last, some ps =>
